@@ -22,6 +22,11 @@ CHECKS = {
          "(a) Set/Get/Delete/List of the real on-disk store against a map model for lengths at and around the 256 KiB compress-then-encrypt block edges (lengths computed with the same LZ4 options), four compressibility classes, overwrite/delete; (b) truncation at every probed offset, bit flips, block drop/duplicate/swap and a wrong passphrase must give an error or exactly the stored bytes; (c) 4-12 goroutines on 1-3 IDs through the WriteControlledStore: every returned value must be a complete written value and each per-ID history must be linearizable (porcupine, register-with-delete), with a failpoint sleep between truncate and the first block; the same workload runs under the race detector. Held on the cases explored.",
          "Trusts porcupine v1.3.0, the LZ4 length computation and the harness clock (one monotonic source); a porcupine timeout is reported as inconclusive; the sweep probes every offset only for small files (boundary neighbourhoods + PRNG sample for large ones).",
          "DESIGN.md §4 C09"),
+ "C10": ("exploration",
+         "grammar-based generation of valid commands with randomised encodings/chunkings; parse result compared with the generated abstract command (differential against the generator, metamorphic over renderings)",
+         "Generates commands from the supported RFC 3501/2971/4315/6851/2177/3691 grammar subset (all 29 commands and UID forms, sequence sets, flag lists, fetch attributes/sections/partials, recursive search keys, date/date-time, ID lists), renders every string argument as atom, quoted string or literal where allowed, randomises keyword case, concatenates 1-5 commands and feeds the bytes in 1-byte/small/medium/whole chunks through the reader stack the server uses; command.Parser.Parse must return exactly the generated command. Quick: ~360k commands, thorough: ~9M.",
+         "Trusts the generator's own reading of the grammar (only valid commands are generated; leniency of the parser beyond the grammar is not judged) and the reflective dump used for comparison.",
+         "DESIGN.md §4 C10"),
 }
 
 ALL = ["C%02d" % i for i in range(1, 21)]
